@@ -497,8 +497,13 @@ def word_shape_rules(ctx, rule):
                     stem = S.strip_refs(e[3][names.index("stem")])
                     if sl[0] == "agg" and len(sl[3]) == 2:
                         a0, a1 = sl[3]
-                        if a0[0] == "binop" and a0[1] == "Add" and a1[0] == "binop" and a1[1] == "Add" and \
-                                S.norm(a1[2]) == S.norm(a0) and S.norm(a1[3]) == S.norm(stem):
+                        from .. import bounds as B_
+                        # end - start == stem, as linear forms (so `let end = start + len` is the same fact), and the
+                        # start is an offset added to the parent word's start
+                        d_ = B_.lin(a1) - B_.lin(a0) - B_.lin(stem)
+                        starts_in_word = any(isinstance(k_, tuple) and k_ and k_[0] == "field" and str(k_[2]) == "0"
+                                             for k_ in B_.lin(a0).co)
+                        if not d_.co and d_.c == 0 and len(B_.lin(stem).co) == 1 and starts_in_word:
                             good = True
         if good:
             ctx.ok(rule, k, nb.where(), "split words span (start, start + len) with stem = len", nontrivial=True)
@@ -561,16 +566,18 @@ def text_methods_use_chars(ctx, rule):
         if b is None:
             ctx.fail(rule, "text-method:%s" % name, "-", "Text::%s not found (fail closed)" % name)
             continue
-        sy = ctx.sym(b)
-        for bi, t in b.calls():
+        for b2 in [b] + U.nested_closures(ctx, b):
+          sy = ctx.sym(b2)
+          for bi, t in b2.calls():
             if (t.get("rcn") or "").startswith("tokenization::word_shape::WordShape::") and len(t["args"]) >= 2:
                 n += 1
-                arr = U.field_path(sy.operand(t["args"][1]))
+                _, ae = U.out_of_closure(ctx, b2, sy.operand(t["args"][1]))
+                arr = U.field_path(ae)
                 key = "chars-arg:%s" % name
                 if arr and arr[0] == "arg" and arr[1] == 1 and arr[2] == ["chars"]:
-                    ctx.ok(rule, key, where(b, bi, t), "Text::%s passes self.chars to WordShape::%s" % (name, t["rcn"].rsplit("::", 1)[-1]))
+                    ctx.ok(rule, key, where(b2, bi, t), "Text::%s passes self.chars to WordShape::%s" % (name, t["rcn"].rsplit("::", 1)[-1]))
                 else:
-                    ctx.fail(rule, key, where(b, bi, t), "Text::%s passes %s instead of the normalised `chars` to WordShape::%s"
+                    ctx.fail(rule, key, where(b2, bi, t), "Text::%s passes %s instead of the normalised `chars` to WordShape::%s"
                              % (name, ".".join(arr[2]) if arr else "another array", t["rcn"].rsplit("::", 1)[-1]),
                              {"witness": "German 'Fuß': the NUL padding after 'ß' is stripped as trailing junk / the stemmer sees 'ß\\0'"})
     ctx.floor(rule, "word_method_calls_from_text", n, 4)
